@@ -60,9 +60,23 @@ def run(ctx) -> None:
         # what is tested
         tolname = norm(tst.test.left)
         sl, _, _ = du.backward_slice(tst.test.left, tnode)
-        txt = " ".join(norm(e) for e in sl).replace(" ", "")
-        r1.check("np.linalg.norm(check_eye-np.eye(3))" in txt and "sum((w*mforw,minzip(weight_shell,shell_mat)))" in txt
-                 and "kcart.T.dot(kcart)forkcartinshell_kcart" in txt,
+
+        def in_slice(pat, metas, binding=None):
+            for e in sl:
+                for n_, b_ in pmatch(e, pat, metas, binding):
+                    return b_
+            return None
+        b1 = in_slice("np.linalg.norm(CE - np.eye(3))", {"CE"})
+        b2 = in_slice("sum(W * M for W, M in zip(WS, SM))", {"W", "M", "WS", "SM"}) or in_slice("sum(M * W for W, M in zip(WS, SM))", {"W", "M", "WS", "SM"})
+        b3 = in_slice("[KC.T.dot(KC) for KC in SKC]", {"KC", "SKC"}) or in_slice("[KC.T @ KC for KC in SKC]", {"KC", "SKC"})
+        expanded = pmatch(gw.node, "for W, SKL, SKC in zip(WS, L1, L2):\n    ...", {"W", "SKL", "SKC", "WS", "L1", "L2"})
+        if b2 and b3:
+            smd = du.single_def(b2["SM"], tnode) if b2["SM"].isidentifier() else None
+            if smd is None or smd.value is None or not (pmatch(smd.value, "[KC.T.dot(KC) for KC in SKC]", {"KC", "SKC"}, {"SKC": b3["SKC"]})
+                                                         or pmatch(smd.value, "[KC.T @ KC for KC in SKC]", {"KC", "SKC"}, {"SKC": b3["SKC"]})):
+                b2 = None
+        same_shells = bool(b2 and b3 and expanded) and any(x[1]["WS"] == b2["WS"] and x[1]["L2"] == b3["SKC"] for x in expanded)
+        r1.check(bool(b1 and b2 and b3) and same_shells,
                  f"`{tolname}` = ‖Σ_s w_s (Bᵀ B)_s − 1‖ over the candidate shells", gw, tst,
                  f"the tested quantity `{tolname}` is no longer the deviation of Σ_s w_s Σ_b b bᵀ from the identity for the shells that are "
                  f"returned")
@@ -103,9 +117,14 @@ def run(ctx) -> None:
     fb = c.methods["find_bk_vectors"]
     r2.instance(f"{fb.short}: search box")
     t = norm(fb.node).replace(" ", "")
-    box_ok = all(f"range(-search_limit[{i}],search_limit[{i}]+1)" in t for i in range(3))
-    r2.check(box_ok, "candidate vectors: the symmetric box −L … L in every direction", fb, fb.node,
-             "the search box is not symmetric (range(−L, L+1) in every direction): shells are not closed under b → −b", stmt="search box")
+    verdict, how = _search_box(fb)
+    if verdict is None:
+        r2.expect(False, "search box recognised", fb, fb.node, f"find_bk_vectors: the construction of the candidate vectors k_latt is not one of the "
+                  f"recognised forms ({how})")
+    else:
+        r2.check(verdict, f"candidate vectors: the symmetric box −L … L in every direction ({how})", fb, fb.node,
+                 f"the search box is not symmetric ({how}): shells are not closed under b → −b, so half shells are selected and the "
+                 f"completeness relation is solved with the wrong weights", stmt="search box")
     ks = c.methods["k_to_shells"]
     tk = norm(ks.node).replace(" ", "")
     r2.check("shell_kcart=[k_cart[b1:b2]forb1,b2inzip(brd,brd[1:])]" in tk and "shell_klatt=[k_latt[b1:b2]forb1,b2inzip(brd,brd[1:])]" in tk
@@ -120,26 +139,147 @@ def run(ctx) -> None:
     fg = c.methods.get("find_G_and_neighbours")
     r3.instance(fg.short)
     gcfg, gdu, gpm = fctx(fg)
-    tests = [s for s in ast.walk(fg.node) if isinstance(s, ast.If) and norm(s.test).replace(" ", "") == "np.all(g%mp_grid==0)"]
-    if len(tests) != 1:
-        raise AnalysisError("find_G_and_neighbours: congruence test `np.all(g % mp_grid == 0)` not found")
-    tst = tests[0]
-    body = [norm(s).replace(" ", "") for s in tst.body]
-    r3.check("neighbours[kirr][ib]=ik2" in body and "G[kirr][ib]=g//mp_grid" in body and body[-1] == "break",
-             "neighbour and G are stored together under the congruence test, then the search stops", fg, tst,
-             f"under the congruence test the code does {body}: neighbour index and lattice shift are not stored together (k + b = k' + G "
-             f"is violated for some entries)")
-    gd = gdu.single_def("g", gcfg.node(tst))
-    nb = gdu.single_def("k_latt_int_nb", gd.node) if gd is not None else None
-    r3.check(gd is not None and norm(gd.value).replace(" ", "") == "k_latt_int_nb-k_latt_int[ik2]" and nb is not None and
-             norm(nb.value).replace(" ", "") == "k_latt_int[kirr]+bk_grid[ib]", "g = (k + b) − k' in integer mesh coordinates", fg, gd.stmt if gd else tst,
-             "g is no longer (k + b) − k' on the integer mesh")
-    lp = enclosing(gpm, tst, ast.For)
-    r3.check(lp is not None and lp.orelse and isinstance(lp.orelse[0], ast.Raise) and norm(lp.iter) == "range(NK)",
-             "all k-points are candidates and a missing neighbour raises", fg, lp or tst, "a missing neighbour no longer raises (entry silently left at 0)")
-    t = norm(fg.node).replace(" ", "")
-    r3.check("k_latt_int=np.rint(kpoints_red*mp_grid).astype(int)" in t, "mesh coordinates are integers (rint)", fg, fg.node,
-             "k-points are no longer converted to integer mesh coordinates", stmt="rint")
+    M3 = {"IK2", "NK", "G_", "KNB", "KL", "MP", "NB", "KI", "IB", "GG"}
+    full = pmatch(fg.node, "for IK2 in range(NK):\n    G_ = KNB - KL[IK2]\n    if np.all(G_ % MP == 0):\n        NB[KI][IB] = IK2\n"
+                  "        GG[KI][IB] = G_ // MP\n        break\nelse:\n    raise ANY", M3)
+    search = pmatch(fg.node, "for IK2 in range(NK):\n    ...\n    if ANY:\n        ...\n        break\n    ...\nelse:\n    ...", {"IK2", "NK"}) or \
+        pmatch(fg.node, "for IK2 in range(NK):\n    ...\n    if ANY:\n        ...\n        break\n    ...", {"IK2", "NK"}) or \
+        pmatch(fg.node, "for IK2 in range(NK):\n    ...\n    if np.all(ANY % ANY == 0):\n        ...", {"IK2", "NK"})
+    labels = _label_idiom(fg)
+    if search:
+        lp = search[0][0]
+        r3.idiom("linear search over all k-points under the integer congruence test")
+        r3.check(len(full) == 1, "for every candidate k': g = (k+b) − k'; if g ≡ 0 (mod mesh): store neighbour and G = g // mesh together, stop; "
+                 "no candidate → raise", fg, lp,
+                 "the neighbour search is no longer `g = (k+b) − k'; if all(g % mesh == 0): neighbours[k][b] = k'; G[k][b] = g // mesh; break; else: raise`: "
+                 "neighbour index and lattice shift are not stored together under the congruence test, or a missing neighbour is tolerated "
+                 "(k + b = k' + G is violated for some entries)")
+        if full:
+            bb = full[0][1]
+            nb = gdu.single_def(bb["KNB"], gcfg.node(lp)) if bb["KNB"].isidentifier() else None
+            knb = nb.value if nb is not None else ast.parse(bb["KNB"], mode="eval").body
+            okk = bool(pmatch(knb, f"{bb['KL']}[{bb['KI']}] + BKG[{bb['IB']}]", {"BKG"})) and pmatch(knb, f"{bb['KL']}[{bb['KI']}] + BKG[{bb['IB']}]", {"BKG"})[0][0] is knb
+            r3.check(okk, "k + b is formed on the integer mesh from the same k and b that index the stores", fg, nb.stmt if nb is not None else lp,
+                     f"`{bb['KNB']}` is not {bb['KL']}[{bb['KI']}] + bk_grid[{bb['IB']}]: the stored neighbour belongs to another (k, b) pair")
+            kl = gdu.single_def(bb["KL"], gcfg.node(lp)) if bb["KL"].isidentifier() else None
+            r3.check(kl is not None and bool(pmatch(kl.value, "np.rint(KR * MP).astype(int)", {"KR", "MP"}, {"MP": bb["MP"]}))
+                     or (kl is not None and bool(pmatch(kl.value, "np.rint(KR * MP[None, :]).astype(int)", {"KR", "MP"}, {"MP": bb["MP"]}))),
+                     "mesh coordinates are integers (rint of k·mesh)", fg, kl.stmt if kl is not None else lp,
+                     "k-points are no longer converted to integer mesh coordinates with rint(k·mesh)")
+    elif labels is not None:
+        r3.idiom("label search: k-points labelled by a flattened mesh index, neighbours looked up by label")
+        ok_l, msg_l, node_l = labels
+        r3.check(ok_l, "the flattened label is injective on the mesh (mixed-radix strides) and G is (k+b−k') // mesh", fg, node_l, msg_l)
+    else:
+        r3.expect(False, "neighbour search recognised", fg, fg.node,
+                  "find_G_and_neighbours: neither the linear search under the congruence test nor a label lookup was recognised")
+
+
+def _search_box(fb):
+    """(symmetric?, description) for the candidate-vector box of find_bk_vectors; (None, why) when the form is unknown."""
+    from ..algebra import Rat, to_rat
+    cfg, du, pm = fctx(fb)
+    defs = [s for s in stmts(fb.node) if isinstance(s, ast.Assign) and is_name(s.targets[0], "k_latt")]
+    if len(defs) != 1:
+        return None, "no single assignment to k_latt"
+    st = defs[0]
+    at = cfg.node(st)
+
+    def env(x):
+        if isinstance(x, ast.Subscript):
+            base = du.resolve_local(x.value, at) if isinstance(x.value, ast.Name) else x.value
+            sl = x.slice
+            if isinstance(sl, ast.Constant) and isinstance(sl.value, int):
+                return Rat.sym(f"{norm(x.value)}_{sl.value}")
+            # broadcasting subscripts [None, :] do not change the value
+            elts = sl.elts if isinstance(sl, ast.Tuple) else [sl]
+            if all((isinstance(e, ast.Constant) and e.value is None) or (isinstance(e, ast.Slice) and e.lower is None and e.upper is None and e.step is None) for e in elts):
+                return to_rat(x.value, env)
+        if isinstance(x, ast.Name):
+            d = du.single_def(x.id, at)
+            if d is not None and d.kind == "assign" and isinstance(d.value, (ast.BinOp, ast.Subscript, ast.Name, ast.Constant)) \
+                    and not any(isinstance(n, ast.Call) for n in ast.walk(d.value)):
+                return to_rat(d.value, env)
+            return Rat.sym(x.id)
+        return None
+
+    v = st.value
+    # form A: np.array([(i, j, k) for i in range(lo, hi) for j in … for k in …])
+    lc = None
+    for n in ast.walk(v):
+        if isinstance(n, (ast.ListComp, ast.GeneratorExp)) and len(n.generators) == 3:
+            lc = n
+    if lc is not None:
+        tv = [g.target.id for g in lc.generators if isinstance(g.target, ast.Name)]
+        if not (isinstance(lc.elt, ast.Tuple) and [norm(e) for e in lc.elt.elts] == tv and len(tv) == 3):
+            return None, "comprehension does not yield the tuple of its three loop variables in order"
+        desc = []
+        ok = True
+        for g in lc.generators:
+            if not (isinstance(g.iter, ast.Call) and call_name(g.iter) == "range" and 1 <= len(g.iter.args) <= 2 and not g.ifs):
+                return None, f"generator `{norm1(g.iter)}` is not range(lo, hi)"
+            lo = to_rat(g.iter.args[0], env) if len(g.iter.args) == 2 else Rat.const(0)
+            hi = to_rat(g.iter.args[-1], env)
+            sym = (lo + hi - Rat.const(1)).is_zero()
+            ok = ok and sym
+            desc.append(f"{g.target.id} ∈ [{norm(g.iter.args[0]) if len(g.iter.args) == 2 else 0}, {norm(g.iter.args[-1])})")
+        return ok, "; ".join(desc)
+    # form B: np.array(list(np.ndindex(*E))) - O
+    if isinstance(v, ast.BinOp) and isinstance(v.op, ast.Sub):
+        nd = [c_ for c_ in ast.walk(v.left) if isinstance(c_, ast.Call) and call_name(c_).endswith("ndindex")]
+        if len(nd) == 1 and len(nd[0].args) == 1 and isinstance(nd[0].args[0], ast.Starred):
+            E = to_rat(nd[0].args[0].value, env)
+            O = to_rat(v.right, env)
+            sym = (E - Rat.const(1) - O - O).is_zero()
+            return sym, f"ndindex extent {norm(nd[0].args[0].value)} shifted by {norm(v.right)}"
+    return None, f"`{norm1(v, 80)}`"
+
+
+def _label_idiom(fg):
+    """Recognise `labels = (k % mesh) @ strides` neighbour lookup; returns (ok, message, node) or None."""
+    from ..algebra import Rat, to_rat
+    cfg, du, pm = fctx(fg)
+    cand = []
+    for n in ast.walk(fg.node):
+        if isinstance(n, ast.BinOp) and isinstance(n.op, ast.MatMult) and isinstance(n.left, ast.BinOp) and isinstance(n.left.op, ast.Mod):
+            cand.append(n)
+    if not cand:
+        return None
+    res = None
+    for n in cand:
+        at = du.node_of_expr(n)
+        sv = du.resolve_local(n.right, at)
+        if isinstance(sv, ast.Call) and call_name(sv) in ("np.array", "numpy.array", "np.asarray") and sv.args:
+            sv = sv.args[0]
+        if not (isinstance(sv, (ast.List, ast.Tuple)) and len(sv.elts) == 3):
+            return None
+        mesh = n.left.right
+        mname = norm(mesh.value if isinstance(mesh, ast.Subscript) else mesh)
+
+        def env(x, mname=mname):
+            if isinstance(x, ast.Subscript) and norm(x.value) == mname and isinstance(x.slice, ast.Constant):
+                return Rat.sym(f"n{x.slice.value}")
+            return None
+        strides = [to_rat(e, env) for e in sv.elts]
+        nsym = [Rat.sym(f"n{i}") for i in range(3)]
+        import itertools
+        inj = False
+        for p in itertools.permutations(range(3)):
+            if strides[p[0]].equals(Rat.const(1)) and strides[p[1]].equals(nsym[p[0]]) and strides[p[2]].equals(nsym[p[0]] * nsym[p[1]]):
+                inj = True
+        st = enclosing(pm, n, ast.stmt)
+        if not inj:
+            return (False, f"the k-point label `{norm1(n)}` with strides {[norm(e) for e in sv.elts]} is not an injective mixed-radix index of the "
+                    f"mesh ({mname}[0] × {mname}[1] × {mname}[2]): on anisotropic meshes different k-points share a label, a wrong neighbour is "
+                    f"returned and k + b ≠ k' + G", st)
+        res = (True, "", st)
+    # G must be the exact quotient of (k+b) − k'
+    gdef = [s for s in stmts(fg.node) if isinstance(s, ast.Assign) and isinstance(s.targets[0], ast.Subscript) and norm(s.targets[0].value) == "G"]
+    okg = any(isinstance(s.value, ast.BinOp) and isinstance(s.value.op, ast.FloorDiv) and isinstance(s.value.left, ast.BinOp)
+              and isinstance(s.value.left.op, ast.Sub) for s in gdef)
+    if res and not okg:
+        return (False, "G is not stored as ((k + b) − k') // mesh next to the neighbour found by label", gdef[0] if gdef else fg.node)
+    return res
 
 
 from ..selftest import V  # noqa: E402
@@ -159,6 +299,19 @@ SELFTEST = [
       "                    G[kirr][ib] = g // mp_grid\n                    if np.all(g % mp_grid == 0):\n                        neighbours[kirr][ib] = ik2\n                        break", "fire", "R22.3"),
     V("missing neighbour tolerated", BK, "                else:\n                    raise RuntimeError(\n                        f\"Could not find a neighbour for k-point",
       "                else:\n                    print(\n                        f\"Could not find a neighbour for k-point", "fire", "R22.3"),
+    V("seeded C22-m2: ndindex box misses the +L layer", BK,
+      "        k_latt = np.array([(i, j, k) for i in range(-search_limit[0], search_limit[0] + 1)\n                        for j in range(-search_limit[1], search_limit[1] + 1)\n                        for k in range(-search_limit[2], search_limit[2] + 1)])",
+      "        k_latt = np.array(list(np.ndindex(*(2 * search_limit)))) - search_limit[None, :]", "fire", "R22.2"),
+    V("neutral: ndindex box with the full 2L+1 extent", BK,
+      "        k_latt = np.array([(i, j, k) for i in range(-search_limit[0], search_limit[0] + 1)\n                        for j in range(-search_limit[1], search_limit[1] + 1)\n                        for k in range(-search_limit[2], search_limit[2] + 1)])",
+      "        k_latt = np.array(list(np.ndindex(*(2 * search_limit + 1)))) - search_limit[None, :]", "silent"),
+    V("neutral: box limits in local names", BK,
+      "        k_latt = np.array([(i, j, k) for i in range(-search_limit[0], search_limit[0] + 1)",
+      "        L0 = search_limit[0]\n        k_latt = np.array([(i, j, k) for i in range(-L0, 1 + L0)", "silent"),
+    V("neutral: renamed variables in the neighbour search", BK,
+      "                    g = k_latt_int_nb - k_latt_int[ik2]\n                    if np.all(g % mp_grid == 0):\n                        neighbours[kirr][ib] = ik2\n                        G[kirr][ib] = g // mp_grid\n                        break",
+      "                    dk = k_latt_int_nb - k_latt_int[ik2]\n                    if np.all(dk % mp_grid == 0):\n                        neighbours[kirr][ib] = ik2\n                        G[kirr][ib] = dk // mp_grid\n                        break", "silent"),
+    V("neighbour stored for the wrong b", BK, "k_latt_int_nb = k_latt_int[kirr] + bk_grid[ib]", "k_latt_int_nb = k_latt_int[kirr] + bk_grid[ib - 1]", "fire", "R22.3"),
     V("neutral: renamed loop variables in the expansion", BK,
       "            for kl, kc in zip(sh_klatt, sh_kcart):\n                bk_grid.append(kl)\n                bk_cart.append(kc)\n                wk.append(w)",
       "            for b_latt, b_cart in zip(sh_klatt, sh_kcart):\n                bk_grid.append(b_latt)\n                bk_cart.append(b_cart)\n                wk.append(w)", "silent"),
